@@ -1,4 +1,5 @@
 import QP.Model.PT
+import QP.Proofs.PTExamples
 import QP.Proofs.PTTop
 import QP.Proofs.PTReverse
 import QP.Proofs.PTTopW
@@ -63,6 +64,13 @@ theorem windows_correct_single_partial {pt : PT} (hs : Stage3R pt) (params : Lis
     (htS : QP.C05.allLeaves (QP.C05.tidy c) progS = true) :
     progS.windows.Perm P.windows :=
   (createProgram_single_W hs params mm cm S prog0 progS P h0 hnn0 hS hden hclean c ht0 htS).2
+
+/-- non-vacuity: a tree with time reversal, scalar arithmetic, parallel channels and an `ArithmeticAtomicPT` is in
+the scope of the window theorems -/
+example : Stage3R (.timeReversal none (.arith none (.parallel none
+    (.arithAtomic none exPt false exPt []) [("B", .lit 1)]) .plus (.uniform (.lit 1)) true)) :=
+  Stage3R.timeReversal (Stage3R.arith (Stage3R.parallel (Stage3R.atom
+    (AtomTreeW.arithAtomic (AtomTreeW.base AtomTree.const) (AtomTreeW.base AtomTree.const)))))
 
 /-- all windows of a pulse lie inside `[0, duration]` -/
 def Inside (P : Pulse) : Prop := ∀ w ∈ P.windows, 0 ≤ w.2.1 ∧ w.2.1 + w.2.2 ≤ P.dur
